@@ -26,8 +26,17 @@ def _alarm(signum, frame):
     raise _Timeout()
 
 
-def guarded(fn, seconds=10):
-    """run fn() under a wall-clock guard: returns ('ok', result) | ('exc', exception)"""
+def guarded(fn, seconds=10, retry=False):
+    """run fn() under a wall-clock guard: returns ('ok', result) | ('exc', exception).
+    retry=True (fn must be repeatable): a timeout counts only if it repeats with a 6x limit, so that a
+    stalled worker on a loaded machine cannot produce a spurious verdict."""
+    st, r = _guarded(fn, seconds)
+    if retry and st == 'exc' and isinstance(r, _Timeout):
+        st, r = _guarded(fn, seconds * 6)
+    return st, r
+
+
+def _guarded(fn, seconds):
     old = signal.signal(signal.SIGALRM, _alarm)
     signal.alarm(seconds)
     try:
@@ -56,7 +65,7 @@ def exc_name(e):
 def lib_encode(codec, obj, asn1Spec=None, **opts):
     if asn1Spec is not None:
         opts['asn1Spec'] = asn1Spec
-    st, r = guarded(lambda: ENC[codec].encode(obj, **opts))
+    st, r = guarded(lambda: ENC[codec].encode(obj, **opts), retry=True)
     if st == 'ok':
         return {'st': 'ok', 'wire': list(r)}
     return {'st': 'raise', 'cls': classify(r), 'exc': exc_name(r), 'wire': []}
@@ -75,7 +84,7 @@ def lib_decode(rules, data, spec=None, **opts):
     """one-shot decode: {'st','exc','obj','rest'}"""
     if spec is not None:
         opts['asn1Spec'] = spec
-    st, r = guarded(lambda: DEC[rules].decode(data, **opts))
+    st, r = guarded(lambda: DEC[rules].decode(data, **opts), retry=isinstance(data, bytes))
     if st == 'ok':
         if not (isinstance(r, tuple) and len(r) == 2):
             return {'st': 'crash', 'exc': 'ReturnedNonTuple:%s' % type(r).__name__}
